@@ -1,30 +1,19 @@
-(** C17: boolean classifiers of the known findings (genuine defects of the pinned
-    rocfl validator).  Each takes the abstracted input the check extracts from an
-    object root; the property theorems exclude exactly these classes. *)
+(** C17: boolean classifiers of the known findings (genuine defects of the rocfl validator
+    that are still present).  Each takes the abstracted input the check extracts from an
+    object root; the property theorems exclude exactly these classes.
+    Repaired and therefore no longer here: blank-id (commit b116ae5), version-gap (719e6a5,
+    f842f41), wide-padding (d5a9e2d). *)
 From Rocfl Require Import Base.Bytes Model.VersionNum Model.VCode.
 Open Scope N_scope.
 
-(** blank-id: an inventory whose "id" is the empty string passes every check of the
-    visitor, then [Inventory::new(..).unwrap()] panics (validate/serde.rs:480-494,
-    validate_object_id in validate/mod.rs:32-39). *)
-Definition c17_blank_id (id : bytes) : bool := is_nil id.
-
-(** version-gap: validate_version_nums (validate/serde.rs:1306-1313) emits one E010
-    string per missing number between two consecutive version keys: a key such as
-    v400000000 costs 4*10^8 iterations and gigabytes.  [vs] = numbers of the
-    parsable keys of one "versions" block in BTreeSet (ascending) order. *)
-Definition GAP_BOUND : N := 1000000.
-Definition c17_version_gap (vs : list N) : bool :=
-  existsb (fun g => GAP_BOUND <? g) (vnums_gaps vs 1).
-
 (** empty-manifest-entry: a manifest entry ["digest": []] is remembered as a known
-    digest (serde.rs:887 [digests.insert]) but never enters the PathBiMap
+    digest (serde.rs:917 [digests.insert]) but never enters the PathBiMap
     (bimap.rs:88-91), so E050 does not fire for a state that uses the digest and
     [content_paths(..).unwrap()] (validate/mod.rs:1656-1657) panics. *)
 Definition c17_empty_manifest_entry (inv : ainv) : bool :=
   existsb (fun e => is_nil (snd e)) (i_manifest inv).
 
-(** empty-pretty-print-set (debug builds only): PrettyPrintSet (types.rs:1346,
+(** empty-pretty-print-set (debug builds only): PrettyPrintSet (types.rs:1353,
     [len() - 1]) is given the filtered set of mod.rs:1671-1679, which is empty when a
     version's state uses a digest whose two or more content paths all lie in later
     versions. *)
@@ -37,13 +26,7 @@ Definition c17_future_content (inv : ainv) : bool :=
         end) (snd vs)) (i_versions inv).
 Definition c17_empty_pps (dbg : bool) (inv : ainv) : bool := dbg && c17_future_content inv.
 
-(** wide-padding: a version number written with more than 65535 digits has a width
-    that [format!("v{:0width$}")] (types.rs:397) refuses at run time. *)
-Definition c17_wide_padding (v : vnum) : bool := vdisplay_panics v.
-Definition c17_wide_padding_str (s : bytes) : bool :=
-  match vparse s with Ok v => c17_wide_padding v | _ => false end.
-
-(** quadratic-path: validate_non_conflicting (serde.rs:1416-1431) hashes every
+(** quadratic-path: validate_non_conflicting (serde.rs:1464-1478) hashes every
     '/'-prefix of every path: slashes * length operations for one path. *)
 Definition PATH_COST_BOUND : N := 100000000.
 Definition c17_quadratic_path (slashes len : N) : bool := PATH_COST_BOUND <? slashes * len.
